@@ -2,6 +2,7 @@ import Witverif.Proofs.AbiSig
 import Witverif.Proofs.AbiCall
 import Witverif.Proofs.AbiCall2
 import Witverif.Proofs.AbiCall3
+import Witverif.Proofs.AbiTotal4
 /-!
 # C02 — Call glue follows the canonical calling convention for every signature
 
@@ -218,5 +219,18 @@ example :
     (wasmSignature .guestExport ⟨false, List.replicate 17 .u32, some .string⟩).results = [.ptr] ∧
     (wasmSignature .guestExport ⟨false, List.replicate 16 .u32, some .u8⟩).params.length = 16 ∧
     (wasmSignature .guestImportAsync ⟨false, List.replicate 5 .u32, none⟩).params = [.ptr] := by decide
+
+/-- "…and leaves no value unconsumed": `Generator::call` ends with assertions that the operand stack holds
+exactly the core call's operands before the call and exactly the declared results (or `task.return`
+operands) at the end; the glue exists (`= .ok ss`) only if they hold.  They hold for EVERY function with
+valid types in every combination a backend uses, so each `call … = .ok ss` hypothesis of the value
+theorems above is satisfiable for every function they speak about. -/
+theorem glue_exists_and_leaves_no_value_unconsumed (canon : Ty → Bool) (f : Func) (hv : f.valid = true) :
+    (∃ ss, call canon .guestImport true false f = .ok ss) ∧
+    (∃ ss, call canon .guestExport false false f = .ok ss) ∧
+    (∃ ss, call canon .guestExportAsync false true f = .ok ss) ∧
+    (∃ ss, call canon .guestExport false true f = .ok ss) :=
+  ⟨call_import_total canon f hv, call_export_total canon f hv,
+   call_export_async_total canon _ (.inl rfl) f hv, call_export_async_total canon _ (.inr rfl) f hv⟩
 
 end Witverif.Props.C02
